@@ -36,6 +36,7 @@ import ast
 import os
 
 from .. import translate
+from . import normalize
 from ..translate import Untranslatable
 
 ADV = "fairlearn/adversarial/_adversarial_mitigation.py"
@@ -50,6 +51,17 @@ CLASSES = [
     ("ADVR", ADV, "AdversarialFairnessRegressor"),
     ("LAG", "fairlearn/reductions/_exponentiated_gradient/_lagrangian.py", "_Lagrangian"),
 ]
+# Methods whose LOCAL names reach the generated text (the receiver of `.fit(..)` in fitReceivers): their locals, in order
+# of first binding, in the source this lifter was written against.  normalize.rename_in_tree alpha-renames a renamed local
+# back to these names, so that renaming `current_estimator` / `estimator` does not change LifecycleSrc.lean.
+PINNED_LOCALS = {
+    "fairlearn/reductions/_grid_search/grid_search.py": {
+        "GridSearch.fit": ["is_classification_reduction", "objective", "pos_basis", "neg_basis", "neg_allowed", "objective_in_the_span",
+                           "grid", "i", "lambda_vec", "weights", "y_reduction", "y_reduction_unique", "current_estimator",
+                           "oracle_call_start_time", "oracle_call_execution_time", "predict_fct", "loss_fct", "losses"]},
+    "fairlearn/reductions/_exponentiated_gradient/_lagrangian.py": {
+        "_Lagrangian._call_oracle": ["signed_weights", "redY", "redW", "redY_unique", "estimator", "oracle_call_start_time"]},
+}
 FIT_ROOTS = ("fit", "partial_fit")
 PREDICT_ROOTS = ("predict", "predict_proba", "decision_function", "_pmf_predict", "transform", "_raw_predict")
 CLONERS = ("clone", "deepcopy", "copy.deepcopy", "sklearn.base.clone", "base.clone")
@@ -83,6 +95,21 @@ def _root_self_attr(n):
             return a
         n = inner
     return None
+
+
+def _callee(fn, call):
+    """name of the callee that receives `self`.  A local that is bound only as the variable of `for <v> in self.callbacks_`
+    denotes "a user callback of the estimator" whatever the loop variable is called: it is reported under the canonical
+    name `cb`."""
+    f = call.func
+    if isinstance(f, ast.Name):
+        stores = [n for n in ast.walk(fn) if isinstance(n, ast.Name) and n.id == f.id and isinstance(n.ctx, (ast.Store, ast.Del))]
+        loops = [n for n in ast.walk(fn) if isinstance(n, ast.For) and isinstance(n.target, ast.Name) and n.target.id == f.id
+                 and ast.unparse(n.iter) == "self.callbacks_"]
+        args = {a.arg for a in normalize._all_args(fn)}
+        if len(stores) == 1 and len(loops) == 1 and f.id not in args and any(n is call for n in ast.walk(loops[0])):
+            return "cb"
+    return ast.unparse(f)
 
 
 class ClassView:
@@ -229,10 +256,10 @@ class ClassView:
                             if len(p.args) >= 2 and isinstance(p.args[1], ast.Constant) and isinstance(p.args[1].value, str):
                                 continue
                             self.bad(p, "hasattr/getattr on self with a computed name")
-                        escapes.add(f)
+                        escapes.add(_callee(fn, p))
                         continue
                     if isinstance(p, ast.keyword) and isinstance(parents.get(p), ast.Call):
-                        escapes.add(ast.unparse(parents[p].func))
+                        escapes.add(_callee(fn, parents[p]))
                         continue
                     self.bad(p if p is not None else n, "bare use of self that I do not understand (aliasing?)")
         return sorted(assigned), sorted(mutated), sorted(escapes)
@@ -649,12 +676,117 @@ def _bool(e, atoms, where):
     raise Untranslatable(f"{where}: not a boolean rule over the atoms {sorted(atoms)}: `{t}`")
 
 
+def _eval_rule(e, atoms, env):
+    """value of a boolean rule under an assignment of its (side-effect free) atoms"""
+    t = ast.unparse(e)
+    if t in atoms:
+        return env[atoms[t]]
+    if isinstance(e, ast.BoolOp):
+        vals = [_eval_rule(v, atoms, env) for v in e.values]
+        return all(vals) if isinstance(e.op, ast.And) else any(vals)
+    if isinstance(e, ast.UnaryOp) and isinstance(e.op, ast.Not):
+        return not _eval_rule(e.operand, atoms, env)
+    if isinstance(e, ast.Constant) and isinstance(e.value, bool):
+        return e.value
+    raise Untranslatable(f"not a boolean rule: `{t}`")
+
+
+def _rule(e, atoms, where, pinned_src):
+    """Lean text of a closed boolean rule over pure atoms.  A rule with the same truth table as the pinned spelling
+    `pinned_src` (De Morgan, swapped operands of `and` / `or`, double negation: the atoms are attribute reads, `hasattr`
+    probes and local booleans, so short-circuit order is unobservable) is emitted in the pinned spelling; a rule that
+    differs from it on some assignment is emitted as written."""
+    text = _bool(e, atoms, where)
+    pinned = ast.parse(pinned_src, mode="eval").body
+    try:
+        ptext = _bool(pinned, atoms, where)
+    except Untranslatable:
+        return text
+    names = sorted(set(atoms.values()))
+    for bits in range(2 ** len(names)):
+        env = {n: bool(bits >> i & 1) for i, n in enumerate(names)}
+        if _eval_rule(e, atoms, env) != _eval_rule(pinned, atoms, env):
+            return text
+    return ptext
+
+
+def _rule_pure(e, atoms):
+    """a boolean combination of the atoms, of local names and of constants"""
+    if ast.unparse(e) in atoms or isinstance(e, ast.Name) or (isinstance(e, ast.Constant) and isinstance(e.value, bool)):
+        return True
+    if isinstance(e, ast.BoolOp):
+        return all(_rule_pure(v, atoms) for v in e.values)
+    if isinstance(e, ast.UnaryOp) and isinstance(e.op, ast.Not):
+        return _rule_pure(e.operand, atoms)
+    return False
+
+
+def _stores(fn, name):
+    return [n for n in ast.walk(fn) if isinstance(n, ast.Name) and n.id == name and isinstance(n.ctx, (ast.Store, ast.Del))]
+
+
+def _resolve_rule_temps(fn, expr, use_idx, atoms, where):
+    """Replace local names in the rule `expr` (used by the top-level statement number `use_idx` of `fn`) by their
+    definitions: a name bound exactly once, by a top-level `name = <rule over atoms / names>` before the use, such that
+    every top-level statement from that definition up to the use is again such a pure local assignment (nothing in between
+    can change what the atoms read).  Anything else is left alone (and then refused by `_bool`)."""
+    def top_def(name):
+        hits = [(i, s) for i, s in enumerate(fn.body) if isinstance(s, ast.Assign) and len(s.targets) == 1
+                and isinstance(s.targets[0], ast.Name) and s.targets[0].id == name]
+        if len(hits) != 1 or len(_stores(fn, name)) != 1 or name in {a.arg for a in normalize._all_args(fn)}:
+            return None
+        return hits[0]
+
+    def quiet(i, j):
+        return all(isinstance(s, ast.Assign) and len(s.targets) == 1 and isinstance(s.targets[0], ast.Name)
+                   and (_rule_pure(s.value, atoms) or normalize.is_pure(s.value)) for s in fn.body[i:j])
+
+    def subst(e, depth):
+        if ast.unparse(e) in atoms:
+            return e
+        if isinstance(e, ast.Name) and depth < 6:
+            d = top_def(e.id)
+            if d is None or d[0] >= use_idx or not _rule_pure(d[1].value, atoms) or not quiet(d[0], use_idx):
+                return e
+            return subst(d[1].value, depth + 1)
+        if isinstance(e, ast.BoolOp):
+            return ast.BoolOp(op=e.op, values=[subst(v, depth) for v in e.values])
+        if isinstance(e, ast.UnaryOp) and isinstance(e.op, ast.Not):
+            return ast.UnaryOp(op=e.op, operand=subst(e.operand, depth))
+        return e
+    return subst(expr, 0)
+
+
+def _top_index(fn, node):
+    for i, s in enumerate(fn.body):
+        if any(n is node for n in ast.walk(s)):
+            return i
+    return None
+
+
 def _parse(repo, rel):
     try:
         with open(os.path.join(repo, rel)) as f:
-            return ast.parse(f.read())
+            return normalize.parse(f.read())
     except (OSError, SyntaxError) as e:
         raise Untranslatable(f"{rel}: {e}")
+
+
+def _fitted_probe(t):
+    """`try: check_is_fitted(self); v = True / except NotFittedError: v = False` (or `v = True` in the `else:` of the try,
+    which runs exactly when the body completed) -> the name v"""
+    if len(t.handlers) != 1 or t.finalbody or t.handlers[0].type is None or ast.unparse(t.handlers[0].type) != "NotFittedError":
+        return None
+    hb = t.handlers[0].body
+    if len(hb) != 1 or not (isinstance(hb[0], ast.Assign) and len(hb[0].targets) == 1 and isinstance(hb[0].targets[0], ast.Name)):
+        return None
+    v = hb[0].targets[0].id
+    if ast.unparse(hb[0]) != f"{v} = False":
+        return None
+    body, orelse = [ast.unparse(x) for x in t.body], [ast.unparse(x) for x in t.orelse]
+    if (body, orelse) in ((["check_is_fitted(self)", f"{v} = True"], []), (["check_is_fitted(self)"], [f"{v} = True"])):
+        return v
+    return None
 
 
 def _adv_rules(repo, cv):
@@ -677,20 +809,18 @@ def _adv_rules(repo, cv):
     rname = vparams[3]
     arg = bound.get(rname)
     atoms1 = {"hasattr(self, 'classes_')": "has_classes", "self.warm_start": "warm_start"}
+    pin1 = "not hasattr(self, 'classes_') or not self.warm_start"
+    use_idx = _top_index(fit, c)
     if arg is None:
         dflt = vi.args.defaults[-1] if vi.args.defaults else None
         if dflt is None:
             raise Untranslatable("_validate_input: the reinitialize argument is not passed and has no default")
-        reinit = _bool(dflt, atoms1, "fit/reinitialize")
-    elif isinstance(arg, ast.Name):
-        defs = [s for s in fit.body if isinstance(s, ast.Assign) and len(s.targets) == 1
-                and isinstance(s.targets[0], ast.Name) and s.targets[0].id == arg.id]
-        others = [n for n in ast.walk(fit) if isinstance(n, ast.Name) and n.id == arg.id and isinstance(n.ctx, ast.Store)]
-        if len(defs) != 1 or len(others) != 1:
-            raise Untranslatable(f"_AdversarialFairness.fit: `{arg.id}` is not bound exactly once at the top level")
-        reinit = _bool(defs[0].value, atoms1, "fit/reinitialize")
+        reinit = _rule(dflt, atoms1, "fit/reinitialize", pin1)
     else:
-        reinit = _bool(arg, atoms1, "fit/reinitialize")
+        if use_idx is None:
+            raise Untranslatable("_AdversarialFairness.fit: the call of self._validate_input is not in a top-level statement")
+        rule_e = _resolve_rule_temps(fit, arg, use_idx, atoms1, "fit/reinitialize")
+        reinit = _rule(rule_e, atoms1, "fit/reinitialize", pin1)
     # (2) guard of self.__setup(..) in _validate_input
     guards = []
     for n in ast.walk(vi):
@@ -700,18 +830,12 @@ def _adv_rules(repo, cv):
     setups = [x for x in ast.walk(vi) if isinstance(x, ast.Call) and _self_attr(x.func) in ("__setup", "_AdversarialFairness__setup")]
     if len(guards) != 1 or len(setups) != 1 or guards[0].orelse:
         raise Untranslatable("_validate_input: expected exactly one `if <rule>: self.__setup(..)`")
-    # `is_fitted` must be the try/except around check_is_fitted(self)
-    tries = [s for s in vi.body if isinstance(s, ast.Try)]
-    ok = False
-    for t in tries:
-        txt = [ast.unparse(x) for x in t.body]
-        if txt == ["check_is_fitted(self)", "is_fitted = True"] and len(t.handlers) == 1 \
-                and [ast.unparse(x) for x in t.handlers[0].body] == ["is_fitted = False"] \
-                and ast.unparse(t.handlers[0].type) == "NotFittedError" and not t.orelse and not t.finalbody:
-            ok = True
-    if not ok:
+    # `is_fitted` (any local name) must be the try/except around check_is_fitted(self)
+    probes = [v for v in (_fitted_probe(t) for t in vi.body if isinstance(t, ast.Try)) if v is not None]
+    if len(probes) != 1 or probes[0] == rname or len(_stores(vi, probes[0])) != 2:
         raise Untranslatable("_validate_input: `is_fitted` is no longer `try: check_is_fitted(self) ... except NotFittedError`")
-    setup = _bool(guards[0].test, {"is_fitted": "is_fitted", rname: "reinitialize"}, "_validate_input/setup guard")
+    setup = _rule(guards[0].test, {probes[0]: "is_fitted", rname: "reinitialize"}, "_validate_input/setup guard",
+                  f"not {probes[0]} or {rname}")
     sif = cv.methods.get("__sklearn_is_fitted__")
     if sif is None or [ast.unparse(s) for s in sif.body if not (isinstance(s, ast.Expr) and isinstance(s.value, ast.Constant))] \
             != ["return hasattr(self, '_is_setup')"]:
@@ -729,17 +853,21 @@ def _adv_rules(repo, cv):
     base = [a.arg for a in init.args.args][1] if len(init.args.args) > 1 else None
     keeps = [s for s in init.body if isinstance(s, ast.If) and
              any(f"{base}.backendEngine_.predictor_model" in ast.unparse(x) for x in s.body)]
-    reuse_anywhere = [n for n in ast.walk(init) if isinstance(n, ast.Attribute) and ast.unparse(n) == f"{base}.backendEngine_"]
+    # every mention of the old engine: `<anything>.backendEngine_` or the string "backendEngine_" (hasattr / getattr)
+    mentions = [n for n in ast.walk(init) if (isinstance(n, ast.Attribute) and n.attr == "backendEngine_")
+                or (isinstance(n, ast.Constant) and n.value == "backendEngine_")]
     if len(keeps) != 1:
-        if not reuse_anywhere:
+        if not mentions:
             keep = "false"
         else:
             raise Untranslatable("BackendEngine.__init__: the reuse of base.backendEngine_ is not one top-level `if`")
     else:
-        if any(f"{base}.backendEngine_" in ast.unparse(x) for x in keeps[0].orelse):
-            raise Untranslatable("BackendEngine.__init__: the else branch also uses base.backendEngine_")
-        keep = _bool(keeps[0].test, {f"{base}.warm_start": "warm_start", f"hasattr({base}, 'backendEngine_')": "has_engine"},
-                     "BackendEngine.__init__/keep")
+        inside = {id(n) for part in [keeps[0].test] + keeps[0].body for n in ast.walk(part)}
+        if any(id(n) not in inside for n in mentions) or any(
+                isinstance(n, ast.Attribute) and ast.unparse(n.value) != base for n in mentions):
+            raise Untranslatable("BackendEngine.__init__: base.backendEngine_ is also used outside the keep branch")
+        keep = _rule(keeps[0].test, {f"{base}.warm_start": "warm_start", f"hasattr({base}, 'backendEngine_')": "has_engine"},
+                     "BackendEngine.__init__/keep", f"{base}.warm_start and hasattr({base}, 'backendEngine_')")
     return reinit, setup, keep
 
 
@@ -817,7 +945,13 @@ def _to_prefit(cv):
     pre = st.orelse if ast.unparse(st.test) == "not self.prefit" else st.body
     refits = any(isinstance(c, ast.Call) and isinstance(c.func, ast.Attribute) and c.func.attr in FIT_ROOTS
                  for x in pre for c in ast.walk(x))
-    alias = any(ast.unparse(x) == "self.estimator_ = self.estimator" for x in pre)
+    # a local bound exactly once in fit, to `self.estimator`, in the prefit branch itself, stands for the user's object
+    temps = {x.targets[0].id for x in pre if isinstance(x, ast.Assign) and len(x.targets) == 1
+             and isinstance(x.targets[0], ast.Name) and ast.unparse(x.value) == "self.estimator"
+             and len(_stores(fit, x.targets[0].id)) == 1}
+    alias = any(isinstance(x, ast.Assign) and len(x.targets) == 1 and ast.unparse(x.targets[0]) == "self.estimator_"
+                and (ast.unparse(x.value) == "self.estimator" or (isinstance(x.value, ast.Name) and x.value.id in temps))
+                for x in pre)
     if not alias and not refits:
         raise Untranslatable("ThresholdOptimizer.fit: prefit branch neither aliases nor fits the estimator")
     return refits, alias
@@ -828,7 +962,7 @@ def analyse(repo):
     views = {}
     for tag, rel, name in CLASSES:
         if rel not in trees:
-            trees[rel] = _parse(repo, rel)
+            trees[rel] = normalize.rename_in_tree(_parse(repo, rel), PINNED_LOCALS.get(rel, {}))
         views[tag] = ClassView(trees[rel], name, rel)
     data = {}
     for tag, rel, name in CLASSES:
